@@ -672,6 +672,9 @@ func sortedAfter(w *World, p *packages.Package, d *ast.FuncDecl, blocks []*ast.B
 						if fid, isF := call.Fun.(*ast.Ident); isF && fid.Name == "len" && len(call.Args) == 1 && call.Args[0] == ast.Expr(id) {
 							lenArg = true
 						}
+						if orderInsensitiveReduction(info, call, id) {
+							lenArg = true
+						}
 					}
 				}
 				if !lenArg {
@@ -714,6 +717,9 @@ func sortedFrom(w *World, p *packages.Package, d *ast.FuncDecl, parent *ast.Bloc
 				if len(stack) >= 2 {
 					if call, isCall := stack[len(stack)-2].(*ast.CallExpr); isCall {
 						if fid, isF := call.Fun.(*ast.Ident); isF && fid.Name == "len" && len(call.Args) == 1 && call.Args[0] == ast.Expr(id) {
+							lenArg = true
+						}
+						if orderInsensitiveReduction(info, call, id) {
 							lenArg = true
 						}
 					}
@@ -842,6 +848,17 @@ func sortedFrom(w *World, p *packages.Package, d *ast.FuncDecl, parent *ast.Bloc
 			return comparatorTotal(w, p, rs, obj, lit, full)
 		}
 		return false, "the first use after the loop (" + full + ") is not a recognised sort"
+	}
+	// every later mention was a length, a membership test or a minimum / maximum: nothing
+	// depends on the order the elements were collected in
+	used := false
+	for _, s := range parent.List[idx+1:] {
+		if mentions(s) {
+			used = true
+		}
+	}
+	if used {
+		return true, obj.Name() + " is only used through order-insensitive reductions (len, slices.Contains, slices.Min/Max)"
 	}
 	return false, obj.Name() + " is never sorted after the loop"
 }
@@ -1143,6 +1160,31 @@ func contains(ss []string, s string) bool {
 	for _, x := range ss {
 		if x == s {
 			return true
+		}
+	}
+	return false
+}
+
+
+// orderInsensitiveReduction: call is slices.Min / slices.Max over a slice of strings or
+// integers, or slices.Contains, with id as the slice: the answer does not depend on the
+// order of the elements.
+func orderInsensitiveReduction(info *types.Info, call *ast.CallExpr, id *ast.Ident) bool {
+	if len(call.Args) == 0 || call.Args[0] != ast.Expr(id) {
+		return false
+	}
+	fn, _ := typeutil.Callee(info, call).(*types.Func)
+	if fn == nil || fn.Pkg() == nil || fn.Pkg().Path() != "slices" {
+		return false
+	}
+	switch fn.Name() {
+	case "Contains":
+		return true
+	case "Min", "Max":
+		if sl, ok := info.TypeOf(id).Underlying().(*types.Slice); ok {
+			if b, ok := sl.Elem().Underlying().(*types.Basic); ok && b.Info()&(types.IsString|types.IsInteger) != 0 {
+				return true
+			}
 		}
 	}
 	return false
